@@ -42,6 +42,23 @@ class VLoop(asyncio.SelectorEventLoop):
 
         self._selector.select = select
         self.set_exception_handler(self._on_exception)
+        self.all_tasks_ever = []
+        self.set_task_factory(self._task_factory)
+
+    def _task_factory(self, loop, coro, **kw):
+        t = asyncio.Task(coro, loop=loop, **kw)
+        self.all_tasks_ever.append(t)
+        return t
+
+    def task_errors(self):
+        """Exceptions (other than cancellation) that ended a task, in creation order."""
+        out = []
+        for t in self.all_tasks_ever:
+            if t.done() and not t.cancelled():
+                e = t.exception()
+                if e is not None:
+                    out.append(e)
+        return out
 
     def _on_exception(self, loop, context):
         self.exceptions.append(context)
@@ -66,6 +83,16 @@ class VLoop(asyncio.SelectorEventLoop):
         if self.iter_hook is not None:
             self.iter_hook(self)
         super()._run_once()
+
+    # thread/process pools: real threads would race against virtual time, so executor work is
+    # run inline and takes zero virtual time (stub; recorded in the evidence)
+    def run_in_executor(self, executor, func, *args):
+        fut = self.create_future()
+        try:
+            fut.set_result(func(*args))
+        except Exception as e:  # noqa: BLE001
+            fut.set_exception(e)
+        return fut
 
     # signals: capture the handler, fire it from the harness -------------------------------
     def add_signal_handler(self, sig, callback, *args):
